@@ -426,11 +426,13 @@ def _arm(fv, bi):
 
 
 # ---------------------------------------------------------------------------------------------- R04.4
-LEN_FNS = [CODEC + "do_encode", CODEC + "mp_reach_encode", CODEC + "mp_unreach_encode", r"rustybgp_packet::bgp::Capability::encode",
-           r"rustybgp_packet::bgp::Attribute::encode_wire", r"rustybgp_packet::bgp::Attribute::encode"]
+LEN_FNS = [CODEC + "do_encode", CODEC + "mp_reach_encode", CODEC + "mp_unreach_encode", CODEC + "append_nlri"]
 
 
 def check_length_arith(prog, r):
+    """Narrow (u8/u16) arithmetic and narrowing casts in the functions that compute the message, attribute-block,
+    withdrawn-routes, MP-attribute and OPEN parameter lengths.  An accumulator (`x += ...`) is one obligation however
+    many statements add to it.  usize arithmetic is out of scope (bounded by the address space)."""
     import json
     import os
     from ..absint import _norm_site
@@ -443,22 +445,34 @@ def check_length_arith(prog, r):
                 continue
             it = analyse(prog, key, track_casts=True, type_invariants=INV)
             r.analysed(prog.name(key))
-            counts = {}
+            groups = {}
             for (b, idx), ob in sorted(it.obls.items(), key=lambda kv: (kv[0][0], str(kv[0][1]))):
-                if not (ob.kind.startswith("assert:Overflow") or ob.kind.startswith("cast:")):
-                    continue
-                n += 1
-                base = "%s:%s" % (ob.kind, re.sub(r"\s+", " ", ob.desc)[:70])
-                counts[base] = counts.get(base, 0) + 1
-                site = base if counts[base] == 1 else "%s#%d" % (base, counts[base])
-                if ob.status == "discharged":
-                    r.ok("%s %s" % (short(prog.name(key)), site), ob.by)
-                elif (prog.name(key), _norm_site(site)) in reviewed:
-                    r.ok("%s %s" % (short(prog.name(key)), site), "reviewed: " + reviewed[(prog.name(key), _norm_site(site))]["reason"])
+                if ob.kind.startswith("assert:Overflow"):
+                    if not re.search(r"within (u8|u16|u32|i8|i16|i32)$", ob.by or ""):
+                        continue
+                    m = re.match(r"(\w+) [+\-*]= ", ob.desc)
+                    site = "accumulator:" + m.group(1) if m else "%s:%s" % (ob.kind, re.sub(r"\s+", " ", ob.desc)[:70])
+                elif ob.kind.startswith("cast:") and re.search(r"->(u8|u16)$", ob.kind):
+                    site = "%s:%s" % (ob.kind, re.sub(r"\s+", " ", ob.desc)[:70])
                 else:
-                    r.fail(prog.name(key), site, "a length computed here can wrap or be truncated (%s): %s — the encoded length field then disagrees with the bytes written"
-                           % (ob.kind, ob.by), "%s:%d" % (it.f["file"], ob.line))
-    r.floor("length arithmetic sites", n, 20)
+                    continue
+                g = groups.setdefault(site, {"open": [], "ok": 0, "line": ob.line})
+                if ob.status == "discharged":
+                    g["ok"] += 1
+                else:
+                    g["open"].append((ob.line, ob.by))
+            for site, g in groups.items():
+                n += 1
+                fn = prog.name(key)
+                if not g["open"]:
+                    r.ok("%s %s" % (short(fn), site), "%d site(s) range-proved" % g["ok"])
+                elif (fn, _norm_site(site)) in reviewed:
+                    r.ok("%s %s" % (short(fn), site), "reviewed: " + reviewed[(fn, _norm_site(site))]["reason"])
+                else:
+                    lines = sorted({l for l, _ in g["open"]})
+                    r.fail(fn, site, "a length computed here can wrap or be truncated (line%s %s; %s): the encoded length field then disagrees with the bytes written"
+                           % ("s" if len(lines) > 1 else "", ", ".join(map(str, lines)), g["open"][0][1]), "%s:%d" % (it.f["file"], lines[0]))
+    r.floor("narrow length computations", n, 6)
 
 
 # ---------------------------------------------------------------------------------------------- R04.5
